@@ -3,10 +3,12 @@ package main
 import (
 	"fmt"
 	"regexp"
+	"runtime"
 	"strconv"
 	"strings"
 	"sync"
 	"sync/atomic"
+	"time"
 
 	apierrors "k8s.io/apimachinery/pkg/api/errors"
 	metav1 "k8s.io/apimachinery/pkg/apis/meta/v1"
@@ -343,7 +345,7 @@ func (im *Impl) apply(op Op) (out OutJ, quota []ItemJ, err error) {
 		// real DoAcquire; the verdicts depend on the order and are not compared, the state at quiescence is
 		fc := rig.UnHex(op.FC)
 		var wg sync.WaitGroup
-		var gate int32
+		var gate, ready int32
 		var panicked atomic.Value
 		for k, tok := range op.Toks {
 			wg.Add(1)
@@ -357,11 +359,18 @@ func (im *Impl) apply(op Op) (out OutJ, quota []ItemJ, err error) {
 				acq := &proxyv1alpha1.RateLimitAcquire{ObjectMeta: metav1.ObjectMeta{Name: u},
 					Spec: proxyv1alpha1.RateLimitAcquireSpec{Instance: inst, RequestID: op.Rid + int64(k) + 1,
 						Requests: []proxyv1alpha1.RateLimitAcquireRequest{{FlowControl: fc, Tokens: tok}}}}
+				atomic.AddInt32(&ready, 1)
 				for atomic.LoadInt32(&gate) == 0 {
+					runtime.Gosched()
 				}
 				im.lim.DoAcquire(u, acq)
 			}(k, tok)
 		}
+		// all senders are spinning on the gate before it opens: they enter the limiter together
+		for spin := 0; atomic.LoadInt32(&ready) < int32(len(op.Toks)) && spin < 1000000; spin++ {
+			runtime.Gosched()
+		}
+		time.Sleep(10 * time.Microsecond)
 		atomic.StoreInt32(&gate, 1)
 		wg.Wait()
 		if p := panicked.Load(); p != nil {
